@@ -79,11 +79,18 @@ type cmdSpec struct {
 	Upd       bool
 	Cp        int
 	Job       string
+	// Stale (evict only): pass Statement.Evict not the job's current object but a copy of the pod taken when the
+	// world was built (what the scenario solvers do: RecordedVictimsTasks / potentialVictimsTasks hold their own
+	// PodInfo objects, whose Status does not follow the statement)
+	Stale bool
 }
 
 func (c cmdSpec) String() string {
 	switch c.Kind {
 	case "evict", "unevict":
+		if c.Stale {
+			return fmt.Sprintf("%s(%s~stale-copy)", c.Kind, c.Pod)
+		}
 		return fmt.Sprintf("%s(%s)", c.Kind, c.Pod)
 	case "pipeline":
 		g := ""
@@ -115,11 +122,12 @@ type world struct {
 	pods   []string // in id order
 	nodes  []string
 	static map[string]*pod_info.PodInfo // the objects the snapshot was built from (for static attributes only)
+	copies map[string]*pod_info.PodInfo // a clone of every pod as it was when the world was built (cmdSpec.Stale)
 	fresh  int
 }
 
 func newWorld(c cycle.Cluster, fails map[int]bool) *world {
-	w := &world{c: c, ids: core.NewIds(), jobOf: map[string]string{}, static: map[string]*pod_info.PodInfo{}}
+	w := &world{c: c, ids: core.NewIds(), jobOf: map[string]string{}, static: map[string]*pod_info.PodInfo{}, copies: map[string]*pod_info.PodInfo{}}
 	w.b = cycle.Build(c)
 	w.fc = &fcache{Cache: w.b.Ssn.Cache, fails: fails}
 	w.b.Ssn.Cache = w.fc
@@ -134,6 +142,9 @@ func newWorld(c cycle.Cluster, fails map[int]bool) *world {
 			w.jobOf[p.Name] = j.Name
 			w.pods = append(w.pods, p.Name)
 			w.static[p.Name] = w.b.Tasks[p.Name]
+			if t := w.b.Tasks[p.Name]; t != nil {
+				w.copies[p.Name] = t.Clone()
+			}
 		}
 	}
 	for _, j := range c.Jobs {
@@ -429,6 +440,9 @@ func (w *world) exec(c cmdSpec) (failed bool, ret int, panicked string) {
 	switch c.Kind {
 	case "evict":
 		if t := w.pod(c.Pod); t != nil {
+			if c.Stale && w.copies[c.Pod] != nil {
+				t = w.copies[c.Pod]
+			}
 			err = w.stmt.Evict(t, "verif", eviction_info.EvictionMetadata{Action: "reclaim", EvictionGangSize: 1})
 		} else {
 			err = errors.New("no pod")
@@ -505,6 +519,11 @@ type result struct {
 	reEvict       int            // a pod is evicted again after it was un-evicted
 	reUnevict     int            // ... and un-evicted again (evict, un-evict, evict, un-evict of one pod)
 	reUnevictThen map[string]int // what ended the statement after such a second un-eviction
+	// Evict applied to a pod that was already Releasing (no operation recorded): by what the pod was
+	// (own-eviction: evicted earlier by this statement; terminating: Releasing before the statement), and what
+	// came later in the same statement
+	ignoredEvict map[string]int
+	ignoredThen  map[string]int
 }
 
 func runCase(c cycle.Cluster, fails map[int]bool, d driver, maxSteps int) result {
@@ -526,6 +545,8 @@ func runCase(c cycle.Cluster, fails map[int]bool, d driver, maxSteps int) result
 	var evs []evEvent
 	pending2nd := false // the statement holds a second un-eviction of some pod
 	res.reUnevictThen = map[string]int{}
+	res.ignoredEvict, res.ignoredThen = map[string]int{}, map[string]int{}
+	pendingIgnored := false // an Evict of a Releasing pod was issued in the current statement
 	seqOf := func(pod string) string {
 		b := []byte{}
 		for _, e := range evs {
@@ -542,10 +563,11 @@ func runCase(c cycle.Cluster, fails map[int]bool, d driver, maxSteps int) result
 		}
 		before := int(w.stmt.Checkpoint())
 		nc := len(w.fc.calls)
-		wasEvicted := false
+		wasEvicted, wasReleasing := false, false
 		if cs.Pod != "" {
 			if t := w.pod(cs.Pod); t != nil {
-				wasEvicted = t.Status == pod_status.Releasing && t.IsVirtualStatus
+				wasReleasing = t.Status == pod_status.Releasing
+				wasEvicted = wasReleasing && t.IsVirtualStatus
 			}
 		}
 		failed, ret, pmsg := w.exec(*cs)
@@ -558,6 +580,21 @@ func runCase(c cycle.Cluster, fails map[int]bool, d driver, maxSteps int) result
 		if !failed {
 			switch cs.Kind {
 			case "evict":
+				if after == before {
+					// nothing recorded: the pod was already Releasing
+					k := "other"
+					if wasEvicted {
+						k = "own-eviction"
+					} else if wasReleasing {
+						k = "terminating"
+					}
+					if cs.Stale {
+						k += "(stale copy passed)"
+					}
+					res.ignoredEvict[k]++
+					pendingIgnored = true
+					break
+				}
 				evs = append(evs, evEvent{before, cs.Pod, 'E'})
 				if strings.HasSuffix(seqOf(cs.Pod), "EUE") {
 					res.reEvict++
@@ -583,12 +620,22 @@ func runCase(c cycle.Cluster, fails map[int]bool, d driver, maxSteps int) result
 				if pending2nd {
 					res.reUnevictThen["rollback"]++
 				}
+				if pendingIgnored {
+					res.ignoredThen["rollback"]++
+				}
 			case "discard", "commit":
 				evs = nil
 				if pending2nd {
 					res.reUnevictThen[cs.Kind]++
 				}
 				pending2nd = false
+				if pendingIgnored {
+					res.ignoredThen[cs.Kind]++
+				}
+				pendingIgnored = false
+			}
+			if pendingIgnored && (cs.Kind == "unevict" || cs.Kind == "pipeline") && wasEvicted {
+				res.ignoredThen["unevict-or-replace"]++
 			}
 		}
 		switch cs.Kind {
